@@ -346,6 +346,49 @@ Additions for data.py Screen.single_treatment_effects / scoring/size.py SizeScor
                       that the primitives of B use exactly this tag for exactly the exceptions of class E.  Default monad only.
   {k: v for a, b in d.items()}   d a bound variable of type `dict T`, no condition: the left fold of dict_set over d's entries
                       in insertion order, a : Z, b : T in scope for k and v (neither may raise)
+Additions for cli/argument_parsing.py, introspection.py and the get_args() of the wrappers (the argument-handling glue; C18 / C06 / C04 / C03):
+  cfg["str_consts"]   type name: a string constant in expression position is the list of its code points at that type
+                      (`"true"` -> `([116; 114; 117; 101] : str)`).  Without the key a string constant is refused as before (docstrings
+                      and raise messages are never evaluated).
+  cfg["eqb_membership"]  True: `x in L` / `x not in L` with L : list T, x : T and T a type with an equality test declared in cfg["eqb"]:
+                      `existsb (eqb x) L` (Python compares x with the items from the left).  Any other membership test falls through
+                      to the integer / dict / set forms.
+  `kdict K V`         in cfg["vars"] / hole types: a dict whose keys have the type NAME K (one word; Z, or a name with a test in cfg["eqb"]) and
+                      values of type V: insertion-ordered association list `list (K * V)`, operations type-directed on a value of that type:
+                        {}                       the empty list (where a `kdict` is needed)
+                        {k1: v1, ..}             only with cfg["dict_literal_type"] = `kdict K V` (every non-empty dict literal of the function
+                                                 has that type): items in source order, keys / values coerced to K / V, successive PyRt.kdict_set
+                        d[k] = v                 PyRt.kdict_set (an existing key keeps its place and takes the value; a new key goes last); the
+                                                 value is evaluated before the key
+                        d[k]                     PyRt.kdict_get, KeyError = Err cfg["key_error"] (refused when that tag is not declared)
+                        d.get(k, e)              d a bound variable: PyRt.kdict_get_default (e is evaluated, as an argument, before the lookup)
+                        {K: V for a, b in d.items()}   d a bound variable: the items in the dict's order, key before value, kdict_set into an
+                                                 empty dict; the monad's fold when key / value may raise (first exception aborts), else fold_left
+                        for a, b in d.items()    d a bound variable: a loop over the list of (key, value) pairs
+                        truth value              of a `kdict`: not empty; of an `opt kdict`: false for None and for {}
+                        x or {}                  only with cfg["kdict_or_empty"]: x when it is a (non-empty) dict, else an empty dict - as a VALUE
+                                                 (PyRt.opt_or_empty; aliasing with the old object is not modelled)
+  cfg["unpack_error"] tag: `(a, b, ..) = e` with e a LIST of the names' declared type: `match e with [a; b; ..] => rest | _ => Err tag end`
+                      (ValueError: not enough / too many values to unpack).  Default monad only.
+  cfg["except_tag_lists"]  {exception class name: [error tags]}: `try: B except E [as n]: H` with E a declared class name and H ENDING IN A
+                      RAISE, followed by further statements (the other shape than cfg["except_tags"], whose parts both end the function):
+                          dor (vs) <- res_catch_tags [tags] (B; Ok (vs)) (H); rest
+                      PyRt.res_catch_tags runs H exactly when B ends in an Err whose tag is listed for E (any other Err passes through); vs = the
+                      variables B assigns that are bound before the try or assigned by a plain / tuple assignment at its top level.  The
+                      configuration TRUSTS the tag lists (which primitives' errors are instances of E).  The name n is not bound (a read is
+                      refused); continue / break / return anywhere, raise / try inside B, else / finally, several handlers are refused.
+                      Takes precedence over cfg["try_prims"] and cfg["except_tags"].
+  cfg["if_expr"]      (cfg["ifexp"] wants arms of ONE type and lets them raise; this form coerces one arm and refuses raising arms)
+                      True: `a if c else b`: the test first, then `if c then a else b`; neither branch may raise (a hoisted call would be
+                      evaluated unconditionally); the branches must have one type, possibly after a declared coercion (cfg["coerce"], e.g. of
+                      the literal None: `("none", T, term)`).
+  cfg["truthy"]       {type name: Gallina predicate}: the truth value of an `opt T` value, T a declared opaque type, is false for None and the
+                      predicate (bool(o)) otherwise - instead of the default "an opaque object is true".
+  cfg["loop_return_rewrite"]  True (for functions that cfg["loop_return"] refuses: an implicit return after the loop, cfg["implicit_return"]):
+                      a `return e` inside a `for` loop that is a TOP-LEVEL statement of the function is rewritten before translation
+                      (class LoopReturn) into `loop_ret = None; for ..: .. loop_ret = e; break ..; if loop_ret is not None: return loop_ret`
+                      with loop_ret a fresh variable of type `opt T`, T the return type (a returned None is `Some None`).  At most one such
+                      loop; refused when the loop has a `break` of its own, an else clause, or the return sits in a nested loop / with / try.
 """
 import ast
 
@@ -375,6 +418,9 @@ def parse_type(s):
         return ("pairdict", parse_type(s[9:]))
     if s.startswith("strdict "):
         return ("strdict", parse_type(s[8:]))
+    if s.startswith("kdict ") and len(s[6:].strip().split(" ", 1)) == 2:      # `kdict K V`: K a type NAME (one word)
+        kk, vv = s[6:].strip().split(" ", 1)
+        return ("kdict", parse_type(kk), parse_type(vv))
     return (s,)
 
 
@@ -411,6 +457,8 @@ def coq_type(t):
         return "(list ((Z * Z) * %s))" % coq_type(t[1])
     if t[0] == "strdict":
         return "(list (pystr * %s))" % coq_type(t[1])
+    if t[0] == "kdict":
+        return "(list (%s * %s))" % (coq_type(t[1]), coq_type(t[2]))
     return t[0]
 
 
@@ -596,6 +644,26 @@ class Tr:
             return "(" + getter.format(obj=o) + ")", fty
         if isinstance(e, ast.Name) and e.id.startswith("MATCHCLASS:"):
             return "(" + e.id[len("MATCHCLASS:"):] + ")", ("bool",)
+        if isinstance(e, ast.Name) and e.id.startswith("KDICTITEMS:"):      # d.items() of a `kdict K V` as a loop source
+            d = e.id[len("KDICTITEMS:"):]
+            return d, ("list", ("tuple", (env[d][1], env[d][2])))
+        if isinstance(e, ast.IfExp) and self.cfg.get("if_expr"):
+            # cfg["if_expr"]: `a if c else b` - the test is evaluated first; neither branch may raise (a hoisted call would be
+            # evaluated unconditionally); the branches must have one type, possibly after a declared coercion of one of them
+            c = self.cond(e.test, env, hoist)
+            ha, hb = [], []
+            a, at = self.expr(e.body, env, ha)
+            b, bt = self.expr(e.orelse, env, hb)
+            if ha or hb:
+                raise Unsupported("conditional expression whose branch may raise: " + ast.unparse(e))
+            if at != bt:
+                try:
+                    b, bt = self.need(b, bt, at, hb), at
+                except Unsupported:
+                    a, at = self.need(a, at, bt, ha), bt
+                if ha or hb:
+                    raise Unsupported("conditional expression whose branch may raise: " + ast.unparse(e))
+            return "(if %s then %s else %s)" % (c, a, b), at
         if isinstance(e, ast.Name):
             if e.id not in env:
                 raise Unsupported("read of a variable that is not bound here: %s" % e.id)
@@ -618,6 +686,10 @@ class Tr:
                 return "(" + tmpl.format(n=fr.numerator, d=fr.denominator) + ")", parse_type(ty)
             if isinstance(e.value, str) and self.cfg.get("strings"):      # cfg["strings"]: a str constant is the list of its code points
                 return str_literal(e.value), ("pystr",)
+            if isinstance(e.value, str) and self.cfg.get("str_consts") is not None:
+                # cfg["str_consts"]: a string constant is the list of its code points, at the declared type name
+                ty = parse_type(self.cfg["str_consts"])
+                return "([%s] : %s)" % ("; ".join(str(ord(ch)) for ch in e.value), coq_type(ty)), ty
             raise Unsupported("constant: %r" % (e.value,))
         if isinstance(e, ast.List):
             if not e.elts:
@@ -638,6 +710,28 @@ class Tr:
             return self.strdict_literal(e, env, hoist)
         if isinstance(e, ast.Attribute) and e.attr == "__dict__" and self.cfg.get("dataclass"):
             return self.dataclass_dict(e, env, hoist)
+        if isinstance(e, ast.Dict) and self.cfg.get("dict_literal_type") is not None:
+            return self.kdict_literal(e, env, hoist)
+        if isinstance(e, ast.DictComp) and self.kdict_items_source(e, env) is not None:
+            return self.kdict_comp(e, env, hoist)
+        if isinstance(e, ast.Call) and isinstance(e.func, ast.Attribute) and e.func.attr == "get" and len(e.args) == 2 and not e.keywords \
+                and isinstance(e.func.value, ast.Name) and env.get(e.func.value.id, ("unit",))[0] == "kdict":
+            # d.get(k, default) on a `kdict K V`: the value of the first item with that key, else the default (evaluated first, as an argument)
+            _, kt0, vt0 = env[e.func.value.id]
+            kk, kt = self.expr(e.args[0], env, hoist)
+            kk = self.need(kk, kt, kt0, hoist)
+            dv, dvt = self.expr(e.args[1], env, hoist)
+            return "(kdict_get_default %s %s %s %s)" % (self.key_eqb(kt0), e.func.value.id, kk, self.need(dv, dvt, vt0, hoist)), vt0
+        if isinstance(e, ast.BoolOp) and isinstance(e.op, ast.Or) and len(e.values) == 2 and isinstance(e.values[1], ast.Dict) \
+                and not e.values[1].keys and self.cfg.get("kdict_or_empty"):
+            # cfg["kdict_or_empty"]: `x or {}` with x a (possibly None) `kdict`: x when it is a non-empty dict, else an empty dict -
+            # as a VALUE that is x's content, or [] for None (PyRt.opt_or_empty); aliasing is not modelled
+            a, at = self.expr(e.values[0], env, hoist)
+            if at[0] == "opt" and at[1][0] == "kdict":
+                return "(opt_or_empty %s)" % a, at[1]
+            if at[0] == "kdict":
+                return a, at
+            raise Unsupported("`x or {}` on a %s" % (at,))
         if isinstance(e, ast.DictComp):
             # {k(x): v(x) for x in L}  ->  fold_left (fun d x => dict_set d k v) L []; neither k nor v may raise
             if len(e.generators) == 1 and self.items_comp(e.generators[0], env) is not None:
@@ -761,6 +855,13 @@ class Tr:
             # d[k] read on a `dict T`: checked lookup (PyRt.dict_get, KeyError = Err 96); any other subscript is refused
             mark = len(hoist)
             d, dt = self.expr(e.value, env, hoist)
+            if dt[0] == "kdict":      # d[k] on a `kdict K V`: KeyError = Err cfg["key_error"] (refused when that tag is not declared)
+                if self.cfg.get("key_error") is None:
+                    raise Unsupported("read of a typed-key dict without a declared key_error: " + ast.unparse(e))
+                kk, kt = self.expr(e.slice, env, hoist)
+                n = self.new("r")
+                hoist.append((n, "kdict_get %s (%d) %s %s" % (self.key_eqb(dt[1]), self.cfg["key_error"], d, self.need(kk, kt, dt[1], hoist))))
+                return n, dt[2]
             if dt[0] != "dictof":
                 del hoist[mark:]
                 raise Unsupported("subscript of a %s: %s" % (dt, ast.unparse(e)))
@@ -884,6 +985,67 @@ class Tr:
             raise Unsupported("dict comprehension key / value that may raise: " + ast.unparse(e))
         acc = self.new("d")
         return "(fold_left (fun %s '(%s, %s) => dict_set %s %s %s) %s [])" % (acc, a, b, acc, kk, vv, d), ("dictof", vt)
+    # ---- dicts with keys of a declared type (`kdict K V`)
+    def key_eqb(self, kt):
+        """the equality test of a `kdict` key type: Z.eqb for ints, else the one declared in cfg["eqb"]"""
+        if kt == ("Z",):
+            return "Z.eqb"
+        if len(kt) == 1 and kt[0] in self.eqb:
+            return self.eqb[kt[0]]
+        raise Unsupported("dict key type without a declared equality test: %s" % (kt,))
+
+    def kdict_literal(self, e, env, hoist):
+        """cfg["dict_literal_type"] = `kdict K V`: a non-empty dict literal {k1: v1, ...} of the function has that type; keys and
+        values are evaluated in source order and coerced to K / V (cfg["coerce"]); a repeated key keeps its first place and
+        takes the last value (successive kdict_set), as in Python"""
+        ty = parse_type(self.cfg["dict_literal_type"])
+        if ty[0] != "kdict" or any(kx is None for kx in e.keys):
+            raise Unsupported("dict literal: " + ast.unparse(e)[:80])
+        term = "[]"
+        for kx, vx in zip(e.keys, e.values):
+            kk, kt = self.expr(kx, env, hoist)
+            kk = self.need(kk, kt, ty[1], hoist)
+            vv, vt = self.expr(vx, env, hoist)
+            term = "(kdict_set %s %s %s %s)" % (self.key_eqb(ty[1]), term, kk, self.need(vv, vt, ty[2], hoist))
+        return term, ty
+
+    def kdict_items_source(self, e, env):
+        """the variable d when [e] is {K: V for a, b in d.items()} with d bound at a `kdict` type, else None"""
+        if len(e.generators) != 1:
+            return None
+        g = e.generators[0]
+        if g.is_async or g.ifs or not self.tuple_comp_target(g.target) or len(g.target.elts) != 2:
+            return None
+        it = g.iter
+        if isinstance(it, ast.Call) and isinstance(it.func, ast.Attribute) and it.func.attr == "items" and not it.args and not it.keywords \
+                and isinstance(it.func.value, ast.Name) and env.get(it.func.value.id, ("unit",))[0] == "kdict":
+            return it.func.value.id
+        return None
+
+    def kdict_comp(self, e, env, hoist):
+        """{key(a, b): val(a, b) for a, b in d.items()} over a `kdict K V`: the items in the dict's order, from the left, the key
+        evaluated before the value (CPython >= 3.8), `kdict_set` into a dict that starts empty; when key / value may raise the
+        monad's fold (the first exception aborts), otherwise fold_left.  The key expression's type needs an equality test."""
+        d = self.kdict_items_source(e, env)
+        _, kt0, vt0 = env[d]
+        a, b = [x.id for x in e.generators[0].target.elts]
+        if a == b:
+            raise Unsupported("dict comprehension target: " + ast.unparse(e)[:80])
+        env2 = dict(env)
+        env2[a], env2[b] = kt0, vt0
+        inner = []
+        kk, kt = self.expr(e.key, env2, inner)
+        vv, vt = self.expr(e.value, env2, inner)
+        acc = self.new("d")
+        step = "kdict_set %s %s %s %s" % (self.key_eqb(kt), acc, kk, vv)
+        if not inner:
+            return "(fold_left (fun %s '(%s, %s) => %s) %s [])" % (acc, a, b, step, d), ("kdict", kt, vt)
+        if self.M["type"] != "result":
+            raise Unsupported("dict comprehension whose key / value may raise under a non-default monad: " + ast.unparse(e)[:80])
+        n = self.new("dc")
+        body = "".join("dor %s <- %s; " % nt for nt in inner) + "Ok (%s)" % step
+        hoist.append((n, "res_fold (fun %s '(%s, %s) => %s) %s []" % (acc, a, b, body, d)))
+        return n, ("kdict", kt, vt)
 
     def tuple_comp_target(self, t):
         return isinstance(t, ast.Tuple) and len(t.elts) >= 2 and all(isinstance(x, ast.Name) for x in t.elts)
@@ -1009,6 +1171,8 @@ class Tr:
             return "[]"
         if want[0] == "strdict" and have == EMPTY_T:
             return "[]"
+        if want[0] == "kdict" and have == EMPTY_T:
+            return "[]"
         if {have, want} == {("dict",), ("dictof", ("Z",))}:
             return term
         co = self.coercion(have, want)
@@ -1042,6 +1206,14 @@ class Tr:
         v, t = self.expr(e, env, hoist)
         if t == ("bool",):
             return v
+        if t[0] == "opt" and len(t[1]) == 1 and t[1][0] in self.cfg.get("truthy", {}):
+            # cfg["truthy"] = {type name: Gallina predicate}: the truth value of an Optional object of that type is false for None,
+            # else the declared predicate (bool(o)) - instead of the default "an opaque object is true"
+            return "(match %s with Some o__ => %s o__ | None => false end)" % (v, self.cfg["truthy"][t[1][0]])
+        if t[0] == "kdict":      # truth value of a dict: it is not empty
+            return "(negb (is_nil %s))" % v
+        if t[0] == "opt" and t[1][0] == "kdict":      # truth value of an Optional[dict]: None and {} are false
+            return "(opt_list_truthy %s)" % v
         if t[0] == "opt" and t[1][0] == "list":
             return "(opt_list_truthy %s)" % v
         if t[0] == "list":
@@ -1076,6 +1248,18 @@ class Tr:
             x, xt = self.expr(le, env, hoist)      # k in d / k not in d on a string-keyed dict
             r = "(sdict_mem %s %s)" % (re.id, self.need(x, xt, ("pystr",), hoist))
             return r if isinstance(op, ast.In) else "(negb %s)" % r
+        if isinstance(op, (ast.In, ast.NotIn)) and self.cfg.get("eqb_membership"):
+            # cfg["eqb_membership"]: `x in L` with L : list T and T a type with a declared equality test (cfg["eqb"]):
+            # Python compares x with the elements from the left (existsb)
+            # (any other membership test falls through to the integer / dict / set forms below)
+            probe, saved = [], self.fresh
+            x, xt = self.expr(le, env, probe)
+            c, ct = self.expr(re, env, probe)
+            if ct[0] == "list" and ct[1] == xt and len(xt) == 1 and xt[0] in self.eqb:
+                hoist.extend(probe)
+                r = "(existsb (%s %s) %s)" % (self.eqb[xt[0]], x, c)
+                return r if isinstance(op, ast.In) else "(negb %s)" % r
+            self.fresh = saved
         if isinstance(op, (ast.In, ast.NotIn)):
             x, xt = self.expr(le, env, hoist)
             c, ct = self.expr(re, env, hoist)
@@ -1234,6 +1418,9 @@ class Tr:
                 for c in st.cases:
                     for n in self.assigned(c.body):
                         add(n)
+            elif isinstance(st, ast.Try) and self.cfg.get("except_tag_lists") is not None:
+                for n in self.assigned(st.body) + [x for h in st.handlers for x in self.assigned(h.body)]:
+                    add(n)
             elif isinstance(st, ast.Try) and (self.try_prims or self.cfg.get("except_tags") is not None):
                 for n in self.assigned(st.body) + [x for h in st.handlers for x in self.assigned(h.body)]:
                     add(n)
@@ -1412,6 +1599,11 @@ class Tr:
                     term = "(pdict_set %s %s %s %s)" % (d, self.need(ka, kat, ("Z",), hoist), self.need(kb, kbt, ("Z",), hoist),
                                                        self.need(vv, vt, dt[1], hoist))
                     return self.bind_hoist(hoist, "%slet %s := %s in\n" % (ind, d, term), ind) + self.block(rest, env, k, ind)
+                if dt is not None and dt[0] == "kdict":      # d[k] = v on a `kdict K V`: an existing key keeps its place, a new one goes last
+                    vv, vt = self.expr(st.value, env, hoist)      # Python evaluates the right-hand side first
+                    kk, kt = self.expr(tgt.slice, env, hoist)
+                    term = "(kdict_set %s %s %s %s)" % (self.key_eqb(dt[1]), d, self.need(kk, kt, dt[1], hoist), self.need(vv, vt, dt[2], hoist))
+                    return self.bind_hoist(hoist, "%slet %s := %s in\n" % (ind, d, term), ind) + self.block(rest, env, k, ind)
                 if dt is None or dt[0] not in ("dict", "dictof"):
                     raise Unsupported("subscript assignment: " + ast.unparse(st))
                 kk, kt = self.expr(tgt.slice, env, hoist)
@@ -1462,6 +1654,15 @@ class Tr:
             names = self.targets(tgt)
             v, vt = self.expr(st.value, env, hoist)
             tys = tuple(self.var_type(n) for n in names)
+            if vt[0] == "list" and self.cfg.get("unpack_error") is not None and self.M["type"] == "result" \
+                    and all(t == vt[1] for t in tys) and len(set(names)) == len(names):
+                # cfg["unpack_error"] = tag: (a, b, ..) = e with e a LIST: ValueError (Err tag) unless it has exactly that many items
+                env2 = dict(env)
+                for n, t in zip(names, tys):
+                    env2[n] = t
+                txt = "%smatch %s with\n%s| [%s] =>\n%s%s| _ => Err (%d)\n%send\n" % (
+                    ind, v, ind, "; ".join(names), self.block(rest, env2, k, ind + "    "), ind, self.cfg["unpack_error"], ind)
+                return self.bind_hoist(hoist, txt, ind)
             if vt != ("tuple", tys):
                 raise Unsupported("tuple assignment of a %s to %s" % (vt, tys))
             env2 = dict(env)
@@ -1646,6 +1847,8 @@ class Tr:
             return self.loop(st, rest, env, k, ind)
         if isinstance(st, ast.Match):
             return self.block([self.match_to_if(st)] + rest, env, k, ind)
+        if isinstance(st, ast.Try) and self.cfg.get("except_tag_lists") is not None:
+            return self.try_catch_lists(st, rest, env, k, ind)
         if isinstance(st, ast.Try) and self.try_prims:
             return self.try_stmt(st, rest, env, k, ind)
         if isinstance(st, ast.Try) and self.cfg.get("except_tags") is not None:
@@ -1762,6 +1965,56 @@ class Tr:
             if isinstance(s_, ast.If) and s_.orelse and self.returns_always(s_.body) and self.returns_always(s_.orelse):
                 return True
         return False
+    # ---- try / except over exception classes given as sets of error tags (cfg["except_tag_lists"])
+    def try_catch_lists(self, st, rest, env, k, ind):
+        """try: B except E [as n]: H   with E declared in cfg["except_tag_lists"] = {class name: [tags]} and H ending in a raise:
+             dor (vs) <- res_catch_tags [tags] (B; Ok (vs)) (H);  rest
+        PyRt.res_catch_tags runs the handler exactly when B ends in an Err whose tag is listed for E; any other Err passes through."""
+        table = self.cfg["except_tag_lists"]
+        if st.orelse or st.finalbody or len(st.handlers) != 1 or self.M["type"] != "result":
+            raise Unsupported("try statement other than try / one except (default monad)")
+        h = st.handlers[0]
+        cls = h.type.id[:-len(SUFFIX)] if isinstance(h.type, ast.Name) and h.type.id.endswith(SUFFIX) else None
+        if cls not in table:
+            raise Unsupported("except clause over an undeclared exception class: " + (ast.unparse(h.type) if h.type is not None else "<bare>"))
+        if any(isinstance(n, (ast.Continue, ast.Return, ast.Break)) for part in (st.body, h.body) for x in part for n in ast.walk(x)) \
+                or any(isinstance(n, (ast.Raise, ast.Try)) for x in st.body for n in ast.walk(x)):
+            raise Unsupported("continue / break / return inside try / except, or raise / try inside a try body")
+        if not (h.body and isinstance(h.body[-1], ast.Raise)):
+            raise Unsupported("except handler that does not end in a raise")
+        top = []
+        for x in st.body:
+            if isinstance(x, ast.Assign) and len(x.targets) == 1:
+                t = x.targets[0]
+                top += [t.id] if isinstance(t, ast.Name) else [y.id for y in t.elts] if self.tuple_comp_target(t) else []
+        bound = lambda v: v in env and env[v] != ("unit",)
+        allv = self.assigned(st.body)
+        vs = [v for v in allv if bound(v) or v in top]
+        ends = []
+
+        def ret(env2, jump=None):
+            if jump is not None:
+                raise Unsupported("jump in try")
+            ends.append(env2)
+            return "%s    Ok %s\n" % (ind, tuple_term(vs))
+
+        def ret_h(env2, jump=None):
+            raise Unsupported("except handler that may end without raising")
+
+        tb = self.block(list(st.body), env, ret, ind + "    ")
+        th = self.block(list(h.body), env, ret_h, ind + "    ")
+        if len(ends) != 1:
+            raise Unsupported("try body with more than one normal end")
+        tags = "[" + "; ".join("(%d)" % t for t in table[cls]) + "]"
+        txt = "%sdor %s <- res_catch_tags %s (\n%s%s  ) (\n%s%s  );\n" % (ind, self.bind_pat(vs), tags, tb, ind, th, ind)
+        env_after = dict(env)
+        for v in vs:
+            env_after[v] = ends[0][v]
+        for v in allv:
+            if v not in vs:
+                txt += "%slet %s := tt in\n" % (ind, v)   # poison: a later read is a type error
+                env_after[v] = ("unit",)
+        return txt + self.block(rest, env_after, k, ind)
 
     # ---- with blocks (cfg["contexts"]) and statement-run primitives (cfg["stmt_prims"])
     def with_item(self, st):
@@ -2132,6 +2385,10 @@ class Tr:
         # a nested target `i, (a, b, c)`: its top-level components stand in until the element types are known
         tnames = self.targets(st.target) if not nest else ["nested:%d" % i for i in range(len(st.target.elts))]
         it = st.iter
+        if isinstance(it, ast.Call) and isinstance(it.func, ast.Attribute) and it.func.attr == "items" and not it.args and not it.keywords \
+                and isinstance(it.func.value, ast.Name) and env.get(it.func.value.id, ("unit",))[0] == "kdict":
+            # `for k, v in d.items()` over a `kdict K V`: the list of its (key, value) pairs, in the dict's order
+            it = ast.Name(id="KDICTITEMS:" + it.func.value.id, ctx=ast.Load())
         # what is iterated
         if isinstance(it, ast.Call) and isinstance(it.func, ast.Attribute) and it.func.attr == "items" and not it.args:
             d, dt = self.expr(it.func.value, env, hoist)
@@ -2433,6 +2690,52 @@ class YieldToAppend(ast.NodeTransformer):
                             args=[node.value.value], keywords=[])
             return ast.copy_location(ast.Expr(value=call), node)
         return node
+class LoopReturn(ast.NodeTransformer):
+    """cfg["loop_return_rewrite"] = True: `return e` inside a `for` loop that is a TOP-LEVEL statement of the function (not inside a nested
+    loop, a `with` or a `try`) is rewritten, before translation, into
+        loop_ret = None; for ...: ... loop_ret = e; break ...; if loop_ret is not None: return loop_ret
+    where loop_ret is a fresh variable of type `opt T`, T the function's return type (so a returned None is `Some None`: the
+    test after the loop distinguishes "returned" from "fell off the end").  `break` then means what it meant (the loop is left);
+    a loop that already contains a `break` of its own, or a `return` nested deeper, is refused."""
+
+    def __init__(self):
+        self.n = 0
+
+    def rewrite_body(self, stmts):
+        out = []
+        for st in stmts:
+            if isinstance(st, ast.Return):
+                out.append(ast.copy_location(ast.Assign(targets=[ast.Name(id="loop_ret", ctx=ast.Store())],
+                                                        value=st.value if st.value is not None else ast.Constant(value=None)), st))
+                out.append(ast.copy_location(ast.Break(), st))
+            elif isinstance(st, ast.If):
+                st.body = self.rewrite_body(st.body)
+                st.orelse = self.rewrite_body(st.orelse)
+                out.append(st)
+            else:
+                if any(isinstance(n, ast.Return) for n in ast.walk(st)):
+                    raise Unsupported("return nested in a loop / with / try inside a for loop")
+                out.append(st)
+        return out
+
+    def visit_FunctionDef(self, f):
+        body = []
+        for st in f.body:
+            if isinstance(st, ast.For) and any(isinstance(n, ast.Return) for n in ast.walk(st)):
+                if any(isinstance(n, ast.Break) for n in ast.walk(st)) or st.orelse or self.n:
+                    raise Unsupported("return inside a for loop that also breaks / has an else clause / a second such loop")
+                self.n += 1
+                st.body = self.rewrite_body(st.body)
+                body.append(ast.copy_location(ast.Assign(targets=[ast.Name(id="loop_ret", ctx=ast.Store())], value=ast.Constant(value=None)), st))
+                body.append(st)
+                test = ast.Compare(left=ast.Name(id="loop_ret", ctx=ast.Load()), ops=[ast.IsNot()], comparators=[ast.Constant(value=None)])
+                body.append(ast.copy_location(ast.If(test=test, body=[ast.Return(value=ast.Name(id="loop_ret", ctx=ast.Load()))], orelse=[]), st))
+            else:
+                body.append(st)
+        f.body = body
+        return f
+
+
 def check_inherits(tree, cfg):
     """cfg["inherits"] = [(subclass, base, [method names])]: the subclass has that single base and defines none of the methods"""
     for sub, base, names in cfg.get("inherits", []):
@@ -2524,6 +2827,13 @@ def translate(source_text, cfg):
         cfg["vars"] = dict(cfg["vars"], yielded="list " + cfg["generator"])
         cfg["predefine"] = dict(cfg.get("predefine", {}), yielded="[]")
         cfg["implicit_return"] = "{yielded}"
+    if cfg.get("loop_return_rewrite"):      # `return` inside a top-level for loop: rewritten into a flag variable + break (LoopReturn)
+        if any(n.id == "loop_ret" for n in ast.walk(f) if isinstance(n, ast.Name)):
+            raise Unsupported("the function uses the name loop_ret itself")
+        f = LoopReturn().visit(f)
+        ast.fix_missing_locations(f)
+        cfg = dict(cfg)
+        cfg["vars"] = dict(cfg["vars"], loop_ret="opt " + cfg["returns"])
     if cfg.get("body_slice") and cfg.get("outside_names") is not None:
         check_outside_names(f, slice_body(f, cfg["body_slice"]), cfg["outside_names"])
     if cfg.get("body_slice"):
